@@ -188,9 +188,10 @@ class C08(Check):
                         return out.fail('tee-on-a-cold-source-differs-from-the-pushed-run', source=kind, join=join, error=repr(cold.err), done=cold.done,
                                         cold=cold.out[:12], pushed=got.out[:12], items=items)
             return out
-        # keyed: lifetimes of the enclosing context
+        # keyed: lifetimes of the enclosing context (behind the tee a stateful pass-through, which fails on a joined event that lacks
+        # the section's store)
         node = list(case['ctx_node'])
-        node[-1] = [tee] + after
+        node[-1] = [tee] + after + [['scan', 'acc_keep', 'none', False, None]]
         head, tail = [], []
         snap = progs.run_mux([node], items, taps={(0,): (head, tail)}, prelude=case.get('prelude'))
         hl, odd1 = lifetimes(head)
